@@ -4,7 +4,10 @@ import os
 from common import Infra, ndjson
 
 
-def judge_cases(ctx, module, cfg, cases_path, chunk, heap="6g", timeout=3000, tag="cases"):
+TLC_WORKERS = 8     # upper bound on TLC worker threads used by the function-table checks
+
+
+def judge_cases(ctx, module, cfg, cases_path, chunk, heap="6g", timeout=3000, tag="cases", workers=TLC_WORKERS):
     """Let TLC evaluate the specification on the cases recorded by the Go driver.
 
     The case file is cut into chunks of `chunk` lines (bounded TLC memory: a whole chunk is
@@ -19,7 +22,7 @@ def judge_cases(ctx, module, cfg, cases_path, chunk, heap="6g", timeout=3000, ta
     with open(out, "w") as fh:
         for k in range(0, len(lines), chunk):
             part = lines[k:k + chunk]
-            r = ctx.tlc(module, cfg, timeout=timeout, heap=heap, tag="%s[%d]" % (tag, k // chunk),
+            r = ctx.tlc(module, cfg, workers=workers, timeout=timeout, heap=heap, tag="%s[%d]" % (tag, k // chunk),
                         files={"cases.ndjson": "".join(part)})
             if not r.ok:
                 raise Infra("TLC failed while judging the recorded cases: violated=%s error=%s\n%s"
